@@ -19,7 +19,8 @@ Chk(p) == p \in Check
 Log == ndJsonDeserialize(IOEnv.TRACE)
 
 VARIABLES l,
-          tbl,        \* dictionary model of the session table
+          tbl,        \* dictionary model of the session table (follows the recorded table unless C16 is checked)
+          mdl,        \* the session table as the specification alone predicts it (never read from the record)
           mT, sT,     \* timeouts read from the automata at construction
           full,       \* last logged full state (before the current event)
           lastFrame,  \* [ms, s] of the last frame through the frame path (-1: none)
@@ -27,13 +28,13 @@ VARIABLES l,
           lastNi,     \* last (r, Ni) pair of a band event, for monotonicity
           lastIn      \* history: second of the last input to << mapping, session >> automaton (the monitor's own clock,
                       \* not the automaton's last_ts field: "left without input for longer than its timeout")
-vars == << l, tbl, mT, sT, full, lastFrame, lastHello, lastNi, lastIn >>
+vars == << l, tbl, mdl, mT, sT, full, lastFrame, lastHello, lastNi, lastIn >>
 
 NoFull == [ms |-> 0, live |-> {}, es |-> 0, hto |-> 0 - 1, bto |-> 0 - 1, lasttx |-> 0, ni |-> << 0, 45 >>, r |-> << 0, 0 >>, begun |-> 0, ctc |-> 0, cdl |-> 0 - 1,
            inact |-> 0, clamped |-> FALSE]
 
 TraceInit ==
-  /\ l = 1 /\ tbl = {} /\ mT = << 0, 0, 0 >> /\ sT = << 0, 0, 0, 0 >>
+  /\ l = 1 /\ tbl = {} /\ mdl = {} /\ mT = << 0, 0, 0 >> /\ sT = << 0, 0, 0, 0 >>
   /\ full = NoFull /\ lastFrame = << 0 - 1, 0 - 1 >> /\ lastHello = 0 - 1 /\ lastNi = << >> /\ lastIn = << 0, 0 >>
 
 Ent(x) == [key |-> x[1], gen |-> x[2], complete |-> x[3] = 1, last |-> x[4]]
@@ -103,7 +104,7 @@ HellosOK(hs, i, last) ==
 LastHelloAfter(hs, last) == IF Len(hs) = 0 THEN last ELSE hs[Len(hs)].t
 
 Skip == /\ Log[l].e \in {"mark", "end"} /\ l' = l + 1
-        /\ UNCHANGED << tbl, mT, sT, full, lastFrame, lastHello, lastNi, lastIn >>
+        /\ UNCHANGED << tbl, mdl, mT, sT, full, lastFrame, lastHello, lastNi, lastIn >>
 
 TNew ==
   LET ev == Log[l] IN
@@ -111,7 +112,7 @@ TNew ==
   /\ Chk("C14") => MappingTimeoutsOK(ev.mT)
   /\ Chk("C15") => SessionTimeoutsOK(ev.sT)
   /\ Chk("C16") => TableConsistent(ev)
-  /\ tbl' = LiveSet(ev) /\ mT' = ev.mT /\ sT' = ev.sT /\ full' = FullOf(ev)
+  /\ tbl' = LiveSet(ev) /\ mdl' = LiveSet(ev) /\ mT' = ev.mT /\ sT' = ev.sT /\ full' = FullOf(ev)
   /\ lastFrame' = << 0 - 1, 0 - 1 >> /\ lastHello' = 0 - 1 /\ lastNi' = << >>
   /\ lastIn' = << ev.now \div 1000, ev.now \div 1000 >>
   /\ l' = l + 1
@@ -126,7 +127,7 @@ TMStep ==
      /\ (Primary = "C14" => TLCSet(2, TLCGet(2) \cup {<< "step", ev.s0, ev.in, ev.nows - since >>}))
      /\ lastIn' = << ev.nows, lastIn[2] >>
      /\ full' = [full EXCEPT !.ms = ev.s1]
-     /\ l' = l + 1 /\ UNCHANGED << tbl, mT, sT, lastFrame, lastHello, lastNi >>
+     /\ l' = l + 1 /\ UNCHANGED << tbl, mdl, mT, sT, lastFrame, lastHello, lastNi >>
 
 TSStep ==
   LET ev == Log[l]
@@ -135,13 +136,13 @@ TSStep ==
      /\ Chk("C15") => (ev.in \in 0..7 => ev.s1 \in SessionStep(ev.s0, ev.in, ev.nows - since, sT))
      /\ (Primary = "C15" => TLCSet(2, TLCGet(2) \cup {<< ev.s0, ev.in, ev.nows - since >>}))
      /\ lastIn' = << lastIn[1], ev.nows >>
-     /\ l' = l + 1 /\ UNCHANGED << tbl, mT, sT, full, lastFrame, lastHello, lastNi >>
+     /\ l' = l + 1 /\ UNCHANGED << tbl, mdl, mT, sT, full, lastFrame, lastHello, lastNi >>
 
 TEStep ==
   /\ Log[l].e = "estep"
   /\ Chk("XENUM") => Log[l].s1 = EnumNext(Log[l].s0, Log[l].in)
   /\ (Primary = "XENUM" => TLCSet(2, TLCGet(2) \cup {<< Log[l].s0, Log[l].in >>}))
-  /\ l' = l + 1 /\ UNCHANGED << tbl, mT, sT, full, lastFrame, lastHello, lastNi, lastIn >>
+  /\ l' = l + 1 /\ UNCHANGED << tbl, mdl, mT, sT, full, lastFrame, lastHello, lastNi, lastIn >>
 
 (* C16: strict comparison with the dictionary model *)
 TTop ==
@@ -163,6 +164,12 @@ TTop ==
                       /\ retOK
      /\ (Primary = "C16" => TLCSet(2, TLCGet(2) \cup {<< ev.op, Cardinality(tbl), hit # {} >>}))
      /\ tbl' = (IF Chk("C16") THEN nt ELSE LiveSet(ev))
+     /\ mdl' = (CASE ev.op = "TADD" -> TAdd(mdl, ev.key, ev.gen, ev.nows, TableCap)
+                  [] ev.op = "TREM" -> TRemove(mdl, ev.key, ev.gen)
+                  [] ev.op = "TCLEAR" -> {}
+                  [] ev.op = "TCOMP" -> TComplete(mdl, ev.key, ev.gen)
+                  [] ev.op = "TTICK" -> TExpire(mdl, ev.nows)
+                  [] OTHER -> mdl)
      /\ full' = [full EXCEPT !.live = LiveSet(ev)]
      /\ l' = l + 1 /\ UNCHANGED << mT, sT, lastFrame, lastHello, lastNi, lastIn >>
 
@@ -200,6 +207,9 @@ TTick ==
                       \* tick that has to end the mapping session (30 s without a frame) sends nothing, and a Hello needs
                       \* a session that is neither complete nor past its 60 s (by the monitor's own record of the table)
                       /\ Len(ev.hellos) > 0 => (~mustEnd /\ \E e \in survivors : ~e.complete)
+                      \* ... and by the specification's own table: sessions that the rules say are gone (30 s without a
+                      \* frame, 60 s without a refresh, Reset, removal) justify nothing, whatever the record still holds
+                      /\ Len(ev.hellos) > 0 => \E e \in (IF fired THEN {} ELSE TExpire(mdl, nows)) : ~e.complete
      /\ Chk("XTICK") => TickExactOK(ev)
      /\ (Primary = "XTICK" => TLCSet(2, TLCGet(2) \cup {l}))
      /\ (Primary = "C14" /\ had /\ full.ms # 0 => TLCSet(2, TLCGet(2) \cup {<< "tick", mustEnd, mustNot >>}))
@@ -207,6 +217,7 @@ TTick ==
      /\ lastHello' = LastHelloAfter(ev.hellos, lastHello)
      /\ Chk("XGLUE") => ev.ctc = CtcAfterTick(full.ctc, full, nows, fired)
      /\ full' = [FullOf(ev) EXCEPT !.cdl = CdlAfterTick(full, nows, fired)] /\ tbl' = LiveSet(ev)
+     /\ mdl' = (IF fired THEN {} ELSE TExpire(mdl, nows))
      /\ lastIn' = (IF ev.ms # full.ms THEN << nows, lastIn[2] >> ELSE lastIn)
      /\ lastFrame' = (IF fired THEN << 0 - 1, 0 - 1 >> ELSE lastFrame)
      /\ l' = l + 1 /\ UNCHANGED << mT, sT, lastNi >>
@@ -261,6 +272,12 @@ GlueExactOK(ev) ==
        ELSE PrintT(<< "XTICK-DIFF", "glue op", ev.op, "now0", ev.now0, "now", ev.now, "pre", [pre EXCEPT !.live = Cardinality(@)],
                       "model", [w EXCEPT !.live = Cardinality(@)], "real", [g EXCEPT !.live = Cardinality(@)], "hellos", Len(ev.hellos) >>) /\ FALSE
 
+(* the specification's own table after a frame (a Discover from an address outside the key space resynchronises *)
+(* it with the record: the model has no name for that session)                                                  *)
+MdlAfterGlue(ev) ==
+  IF ev.op = OpDiscover /\ KeyOf(ev.rs) < 0 THEN LiveSet(ev)
+  ELSE TExpire(GlueTable(mdl, ev, ev.now0 \div 1000), ev.now \div 1000)
+
 (* a frame through the Darwin frame path (classifier, table update, automata, parseFrame, tick) *)
 TGlue ==
   LET ev == Log[l] IN
@@ -270,14 +287,19 @@ TGlue ==
   \* a Hello heard through the frame path counts once (unless the closing tick just ended the block)
   /\ Chk("C13") => ((ev.op = OpHello /\ full.r[1] = 0 /\ full.r[2] < 65535 /\ full.es = 1)
                       => ev.r \in {<< 0, full.r[2] + 1 >>, << 0, 0 >>})
+  \* r counts the Hellos heard IN A BLOCK: when a Discover (re)starts enumeration from idle the first block has
+  \* just begun and nothing has been heard in it, whatever was overheard while idle
+  /\ Chk("C13") => ((ev.op = OpDiscover /\ full.es = 0 /\ ev.es # 0) => ev.r = << 0, 0 >>)
   \* the frame path feeds the opcode to the mapping engine; leaving an active state empties the table
   /\ Chk("C14") => /\ ev.ms \in MappingStep(full.ms, ev.op, ev.now \div 1000 - lastIn[1], mT)
                    /\ (full.ms # 0 /\ ev.ms = 0) => ev.live = << >>
   /\ (Primary = "C14" => TLCSet(2, TLCGet(2) \cup {<< "glue", full.ms, ev.op, ev.now \div 1000 - lastIn[1] >>}))
   /\ Chk("C16") => TableConsistent(ev)
   /\ Chk("C12") => HellosOK(ev.hellos, 1, lastHello)
+  /\ Chk("C12") => (Len(ev.hellos) > 0 => \E e \in MdlAfterGlue(ev) : ~e.complete)
   /\ (Primary = "C12" /\ Len(ev.hellos) > 0 => TLCSet(2, TLCGet(2) \cup {l}))
   /\ lastHello' = LastHelloAfter(ev.hellos, lastHello)
+  /\ mdl' = MdlAfterGlue(ev)
   /\ lastFrame' = << ev.now, ev.now \div 1000 >>
   /\ LET charged == [full EXCEPT !.ctc = IF ev.op = OpCharge THEN (full.ctc + 1) % 256 ELSE full.ctc,
                                   !.cdl = IF ev.op = OpCharge THEN ev.now0 \div 1000 + 1 ELSE full.cdl]
@@ -292,9 +314,10 @@ THeard ==
   /\ ev.e = "heard"
   /\ Chk("C12") => ev.hellos = << >>
   \* C13: r is the number of Hellos heard - every one of them counts
-  /\ Chk("C13") => ((full.r[1] = 0 /\ full.r[2] + ev.n < 65536) => ev.r = << 0, full.r[2] + ev.n >>)
+  /\ Chk("C13") => IF ev.n = 0 /\ full.es = 0 /\ ev.es # 0 THEN ev.r = << 0, 0 >>       \* enumeration (re)started through the API
+                    ELSE ((full.r[1] = 0 /\ full.r[2] + ev.n < 65536) => ev.r = << 0, full.r[2] + ev.n >>)
   /\ (Primary = "C13" => TLCSet(2, TLCGet(2) \cup {<< "heard", full.r, ev.n >>}))
-  /\ full' = [FullOf(ev) EXCEPT !.cdl = full.cdl] /\ tbl' = LiveSet(ev)
+  /\ full' = [FullOf(ev) EXCEPT !.cdl = full.cdl] /\ tbl' = LiveSet(ev) /\ mdl' = mdl
   /\ l' = l + 1 /\ UNCHANGED << mT, sT, lastFrame, lastHello, lastNi, lastIn >>
 
 (* the embedded entry point (os/esp32, os/linux embedded; beyond the listed properties, Check id "XEMB"): *)
@@ -311,14 +334,14 @@ TEsp ==
                              /\ ev.s1 \in sraw
                              /\ ev.e1 = EnumNext(ev.e0, IF ev.op = OpHello THEN EnumHello ELSE IF ev.op = OpDiscover THEN EnumNewSession ELSE EnumComplete)
      /\ (Primary = "XEMB" => TLCSet(2, TLCGet(2) \cup {<< ev.m0, ev.s0, ev.e0, ev.op >>}))
-     /\ l' = l + 1 /\ UNCHANGED << tbl, mT, sT, full, lastFrame, lastHello, lastNi, lastIn >>
+     /\ l' = l + 1 /\ UNCHANGED << tbl, mdl, mT, sT, full, lastFrame, lastHello, lastNi, lastIn >>
 
 TClassify ==
   LET ev == Log[l] IN
   /\ ev.e = "classify"
   /\ Chk("C11") => ev.ev \in Classify(ev.b, ev.fill, ev.len, SeqTable(ev), ev.own)
   /\ (Primary = "C11" => TLCSet(2, TLCGet(2) \cup {<< At(ev.b, ev.fill, 18), ev.ev, W16(ev.b, ev.fill, 35) >>}))
-  /\ l' = l + 1 /\ UNCHANGED << tbl, mT, sT, full, lastFrame, lastHello, lastNi, lastIn >>
+  /\ l' = l + 1 /\ UNCHANGED << tbl, mdl, mT, sT, full, lastFrame, lastHello, lastNi, lastIn >>
 
 (* C13: one end of block *)
 TBand ==
@@ -336,7 +359,7 @@ TBand ==
                       /\ mono          \* same prior count: hearing more never shortens the next interval
      /\ (Primary = "C13" => TLCSet(2, TLCGet(2) \cup {<< "band", ev.prev, ev.r, ev.begun >>}))
      /\ lastNi' = << ev.prev, ev.begun, ev.r, ev.interval >>
-     /\ l' = l + 1 /\ UNCHANGED << tbl, mT, sT, full, lastFrame, lastHello, lastIn >>
+     /\ l' = l + 1 /\ UNCHANGED << tbl, mdl, mT, sT, full, lastFrame, lastHello, lastIn >>
 
 (* C18: constructors with the k-th allocation failing *)
 TCtor ==
@@ -345,7 +368,7 @@ TCtor ==
   /\ Chk("C18") => /\ ev.null = 1 \/ ev.usable = 1       \* failure reported, or a usable object
                    /\ ev.null = 1 => ev.live = 0          \* nothing leaked on the failure path
   /\ (Primary = "C18" => TLCSet(2, TLCGet(2) \cup {<< ev.which, ev.k, ev.null >>}))
-  /\ l' = l + 1 /\ UNCHANGED << tbl, mT, sT, full, lastFrame, lastHello, lastNi, lastIn >>
+  /\ l' = l + 1 /\ UNCHANGED << tbl, mdl, mT, sT, full, lastFrame, lastHello, lastNi, lastIn >>
 
 TraceNext == l <= Len(Log) /\ (Skip \/ TNew \/ TMStep \/ TSStep \/ TEStep \/ TTop \/ TTick \/ TGlue \/ THeard \/ TClassify \/ TBand \/ TCtor \/ TEsp)
 TraceSpec == TraceInit /\ [][TraceNext]_vars
